@@ -229,6 +229,22 @@ class Index:
                 self._index(c, scope, cls)
 
     # -------------------------------------------------------------------------------------------
+    def overloads(self, qname):
+        """All definitions of a (possibly overloaded) function."""
+        return [f for f in self.funcs.get(qname, []) if f.body is not None]
+
+    def func_where(self, qname, pred, required=True):
+        """The single overload of qname whose body satisfies pred (falls back to func() when the name is not overloaded)."""
+        ov = self.overloads(qname)
+        if len(ov) <= 1:
+            return self.func(qname, required=required)
+        hit = [f for f in ov if pred(f)]
+        if len(hit) == 1:
+            return hit[0]
+        if not hit and not required:
+            return None
+        raise AnalysisBroken('anchor function %s: %d overloads, %d with the expected content' % (qname, len(ov), len(hit)))
+
     def func(self, qname, param_contains=None, nparams=None, required=True, with_body=True):
         cands = list(self.funcs.get(qname, []))
         if with_body:
